@@ -124,3 +124,93 @@ def k_term_day(eng, aligned):
     if not aligned:
         r["role"] = "term-after-the-months-second-nominal-term-begins-inside-the-month"
     return _finish(r, holder["ctx"]) if "ctx" in holder else r
+
+
+def k_term_instant(eng):
+    """SolarTime::get_term: the latest term whose instant is at or before this instant — the same backward walk as get_term_day, on instants
+    (seconds).  Term instants are an abstract increasing table, consecutive instants 14.6..15.8 days apart; alignment contract: the
+    month's second nominal term (index 2*month) begins inside the month and the term after it does not."""
+    holder = {}
+
+    class TInst:
+        def __init__(self, t):
+            self.t = t
+
+    def build(eng):
+        fn = M.find_fn(eng.fns, "get_term", "&SolarTime")
+        ctx = _ctx(eng, {})
+        ctx.max_unroll = 5
+        rec = Rec(ctx, "self", "SolarTime")
+        y = ctx.fresh_value("year", "isize")
+        m = ctx.fresh_value("month", "usize")
+        O = ctx.fresh_value("instant", "isize")              # seconds on an arbitrary origin
+        F = ctx.fresh_value("month_start_instant", "isize")
+        dim = ctx.fresh_value("month_length_days", "isize")
+        D = {}
+        holder.update(ctx=ctx, D=D)
+
+        def dterm(off):
+            if off not in D:
+                D[off] = ctx.fresh_value("term_instant_%s%d" % ("p" if off >= 0 else "m", abs(off)), "isize")
+            return D[off]
+        model = ctx.model
+        base = model.call
+
+        def call(c, fr, callee, args, path):
+            a = [model.deref(c, x) for x in args]
+            if callee == "SolarTime::get_year" and a[0] is rec:
+                return True, y
+            if callee == "SolarTime::get_month" and a[0] is rec:
+                return True, m
+            if callee == "SolarTerm::from_index" and isinstance(a[0], T) and isinstance(a[1], T):
+                return True, Term(T("(+ (* 24 %s) %s)" % (a[0].s, a[1].s), "Int"), 0)        # 11.c
+            if callee == "<SolarTerm as Tyme>::next" and isinstance(a[0], Term) and isinstance(a[1], T) and a[1].c is not None:
+                return True, Term(a[0].base, a[0].off + a[1].c)
+            if callee in ("<SolarTerm as Clone>::clone", "SolarTerm::clone") and isinstance(a[0], Term):
+                return True, a[0]
+            if callee == "SolarTerm::get_julian_day" and isinstance(a[0], Term):
+                return True, TJD(a[0])
+            if callee == "JulianDay::get_solar_time" and isinstance(a[0], TJD):
+                return True, TInst(a[0].t)
+            if callee == "SolarTime::is_before" and a[0] is rec and isinstance(a[1], TInst):
+                return True, T("(< %s %s)" % (O.s, dterm(a[1].t.off).s), "Bool")     # 12.c: before = chronological
+            if callee == "SolarTime::is_after" and a[0] is rec and isinstance(a[1], TInst):
+                return True, T("(> %s %s)" % (O.s, dterm(a[1].t.off).s), "Bool")
+            return base(c, fr, callee, args, path)
+        model.call = call
+        paths = ctx.run(fn, [("refrec", rec)])
+        k0 = "(+ (* 24 %s) (* 2 %s))" % (y.s, m.s)
+        end = "(+ %s (* 86400 %s))" % (F.s, dim.s)
+        pre = ["(<= 1 %s 9999)" % y.s, "(<= 1 %s 12)" % m.s, "(<= 21 %s 31)" % dim.s, "(<= 0 %s 400000000000)" % F.s, "(<= %s %s)" % (F.s, O.s), "(< %s %s)" % (O.s, end)]
+        for off in range(-6, 3):
+            dterm(off)
+        for off in range(-5, 3):
+            pre.append("(<= 1261440 (- %s %s) 1365120)" % (D[off].s, D[off - 1].s))          # 14.6 .. 15.8 days in seconds
+        pre += ["(<= %s %s)" % (F.s, D[0].s), "(< %s %s)" % (D[0].s, end), "(>= %s %s)" % (D[1].s, end)]
+
+        def shape(p):
+            if getattr(p, "cut", False):
+                return None
+            t = p.ret
+            if not isinstance(t, Term):
+                return "the reported term is not one of the walked terms"
+            return None if len([c for c in p.calls if c[0] == "SolarTerm::from_index"]) == 1 else "expected exactly one SolarTerm::from_index"
+
+        def posts(p):
+            if getattr(p, "cut", False):
+                return []
+            j = p.ret.off
+            if j - 1 not in D or j + 1 not in D:
+                return [("walk-range", "false")]
+            return [("start", "(= %s %s)" % (p.ret.base.s, k0)), ("latest-term", "(and (<= %s %s) (< %s %s))" % (D[j].s, O.s, O.s, D[j + 1].s))]
+        return ctx, paths, pre, posts, shape
+
+    def replay(eng, model):
+        nat = eng.native("term_instant_scan")
+        if nat in ("NONE", "PANIC", "UNKNOWN", ""):
+            return nat == "PANIC", "native scan: " + (nat or "no output")
+        return True, "the reported term is not the latest one begun at or before the instant: " + nat
+
+    r = run_kernel(eng, "06.c/B/term-of-instant-aligned", "06.c", "every instant of every month (21..31 days), term instants any increasing table 14.6..15.8 days apart; contract: the month's second "
+                   "nominal term begins inside the month and the next one after it; walk loop unrolled 5 times with the bound proved", build, None, replay)
+    return _finish(r, holder["ctx"]) if "ctx" in holder else r
